@@ -21,7 +21,10 @@ TRUSTED = ['numpy structured dtype over a memmap = fixed-size chunking (modelled
            'binary32 multiplication by SCALE is exact on the generated scaled stream (checked through the exact value of the words in Coq)',
            'py2coq translator semantics table plus the driver-side dtype-string split described in harness/gen_bpch.py',
            'variable keys "<category>_<name>" are mapped back to (category, name index) by the harness; names are alphabetic']
-ASSUMPTIONS = ['table keys unique (tracer numbers in tracerinfo.dat, categories in diaginfo.dat); no two tracers of a file share offset+id',
+ASSUMPTIONS = ['table keys unique (tracer numbers in tracerinfo.dat, categories in diaginfo.dat); no two tracers of a file share offset+id '
+               '(bpch1 stores the fallback attributes of tracers WITHOUT a tracerinfo line per offset+id, so two such blocks with equal offset+id both present the unit of '
+               'the one walked last - the model presents each block\'s own header unit; on malformed files where an edit creates such a collision the `units` of fallback '
+               'variables is explicitly NOT compared: Corr/C18.v unit_collision, corpus/C18/fallback-unit-collision.json)',
                'one model grid per file and one time stamp per time block (what GEOS-Chem writes)']
 LEVEL_TEXT = ('Theorems (Props/C18.v, 12, all closed under the global context; no _partial) over Model/Bpch.v (both readers and the writer as repaired): the '
               'record-walking spec decoder inverts the spec encoder for every content (C18_dec_enc); for EVERY bpch-convention content and tables with unique keys the model '
@@ -34,7 +37,7 @@ LEVEL_TEXT = ('Theorems (Props/C18.v, 12, all closed under the global context; n
               '(C18_every_prefix; C18_prefix_whole_time_blocks_only_refuted = C14 finding, not a C18 clause). Tie T: dtype literals, pads and skip regenerated from _bpch.py '
               'into coq/Gen/Bpch.v; tie H: reference encoder == Coq enc, bpch1 == impl_open (incl. errors on the malformed stream), ncf2bpch == impl_write, bpch2 == '
               'impl_bpch2 (units compared by text: bpch2 presents header units as str, bpch1 as bytes) on every case.')
-LEVEL_NOTE = ('Trusted: Coq kernel + vm_compute, py2coq and the driver normalisation, the harness (observation of the library object, string pools). Scaled WRITE '
+LEVEL_NOTE = ('NO CLAIM (F): the `units` attribute of variables without a tracerinfo line on files holding two such blocks with equal offset+id (reader quirk, see ASSUMPTIONS). Trusted: Coq kernel + vm_compute, py2coq and the driver normalisation, the harness (observation of the library object, string pools). Scaled WRITE '
               '(vals / scale) is checked on exact values by correspondence only; inexact binary32 scaling is decided by a Python oracle.')
 TECHNIQUE = 'Coq proof (codec round trip, reader/writer model refinement over Fortran record framing) + translation from source + differential correspondence'
 
